@@ -878,6 +878,10 @@ func (fg *FuncGen) mapUpdate(v *ssa.MapUpdate) {
 	fg.frameCheck(&Ptr{Kind: "obj", Ref: m.S}, v.Pos(), "map update")
 	vf, df, cf := g.MapFamilies(g.SortOf(mt.Elem()))
 	key := fg.mapKey(k)
+	if k.Sort == "Str" {
+		// every key of a string-keyed map is a whole piece of text (assumed again when a map is iterated)
+		fg.obl("utf8", "", v.Pos(), []string{"C11"}, "(gs.aligned "+k.S+")", "map key starts and ends on code point boundaries of its text")
+	}
 	dcur, ccur, vcur := fg.famIn(fg.st, df), fg.famIn(fg.st, cf), fg.famIn(fg.st, vf)
 	fg.setFam(cf, fmt.Sprintf("(store %s %s (ite (select (select %s %s) %s) (select %s %s) (+ (select %s %s) 1)))", ccur, m.S, dcur, m.S, key, ccur, m.S, ccur, m.S))
 	fg.setFam(df, fmt.Sprintf("(store %s %s (store (select %s %s) %s true))", dcur, m.S, dcur, m.S, key))
@@ -926,6 +930,7 @@ func (fg *FuncGen) next(v *ssa.Next) {
 		fg.emit("(declare-const %s_ok Bool)", base)
 		fg.emit("(declare-const %s_k Str)", base)
 		fg.assume("(gs.wf " + base + "_k)")
+		fg.assume("(gs.aligned " + base + "_k)")
 		fg.emitDef("%s_v", "%s", "(select (select %s %s) (skey %s_k))", base, g.SortOf(it.mapT.Elem()), fg.famIn(fg.st, vf), it.m.S, base)
 		// semantics of map iteration: an arbitrary key not yet visited; done exactly when all keys were visited
 		fg.assume(fmt.Sprintf("(and (<= 0 %s) (<= %s %s))", n, n, card))
